@@ -4,6 +4,7 @@ from __future__ import annotations
 import json
 from typing import Any, Dict, List, Tuple
 
+from harness.extract import request_callers as x_callers
 from harness.extract import request_core as x_core
 from harness.lib import scen
 from harness.lib.core import VERIF, Ctx, Rng, lean_lock, run_driver
@@ -35,9 +36,17 @@ MANIFEST = {
             "Dynamic sites: the guards of every add_request / remove_request site are regenerated and proved free of power / operating-state "
             "tests, with only presence / type guards beyond the registry statement (C05_gen_sites_unconditional); on the construction-order "
             "model routes = registry for every operation sequence (C05_exists_iff_route, C05_guarded_site_counterexample). No handler copies "
-            "or slices its options before reading them (C05_gen_no_options_view_bypass). "
+            "or slices its options before reading them (C05_gen_no_options_view_bypass). Callers: the package's five call sites of "
+            "apply_request / _request_manager and what becomes of the response are regenerated and pinned (C05_gen_request_call_sites: "
+            "returned, stored-and-returned, or handed to the one process_action_response, which only appends the history item — "
+            "C05_gen_response_only_recorded), and no function of game/ that reads a recorded response has an attribute path into the "
+            "simulation (C05_gen_callers_do_not_touch_simulation_on_refusal); rig R-callers: a step in which the agent's action is refused "
+            "leaves the simulation, then and two steps later, as the same step with do-nothing does. Rig R-boundary: every numeric / "
+            "enumerated / name option of every action type at its boundary values (ACL position around max_acl_rules, NIC / port numbers "
+            "around the count, ports 0 / 65535 / 65536, empty and 300-character names), schema-refused values re-sent raw, real handlers: "
+            "an exception out of apply_request or an undocumented status is a violation with the request as replay. "
             "Ties: Gen/RequestCore (shape of __call__/check_valid, unhashable-key guard), Gen/RequestSchema, Gen/ActionTemplates, "
-            "Gen/RequestValidators; rigs R-req (live trees at perturbed states incl. powered-off network devices: status, depth, handler, "
+            "Gen/RequestValidators, Gen/RequestCallers; rigs R-req (live trees at perturbed states incl. powered-off network devices: status, depth, handler, "
             "#args vs the model; route mutations incl. unhashable / None / float / bool elements, empty and over-long requests; every "
             "registered action x existing/missing components), the CONTRACT oracle and search (hand-written contract read from Lean, "
             "evaluated on the object graph; one instance of every route-owning class driven into every gate-falsifying state; every "
@@ -54,7 +63,7 @@ MANIFEST = {
                  "regenerated tables and translated predicates; differential rigs and a contract search on live request trees",
     "design_ref": "5/C05",
 }
-MODULES = ["PrimaiteModel.Props.C05"]   # the static part (harness/props/c05x.py) adds C05Schema, C05Guards, C05Inst
+MODULES = ["PrimaiteModel.Props.C05", "PrimaiteModel.Props.C05Callers"]   # the static part (harness/props/c05x.py) adds C05Schema, C05Guards, C05Inst
 EXE = "drv_c05"
 QUICK_SCEN = ["data_manipulation", "basic_firewall", "basic_switched_network"]
 
@@ -383,6 +392,9 @@ def run_sharded(ctx: Ctx) -> None:
 def replay(rec: dict) -> bool:
     """Re-run one recorded request on a fresh build of its scenario (round 0 state) with stubbed and live handlers."""
     rp = rec["replay"]
+    if rp.get("mode") == "refused-noop":
+        from harness.rigs import request_callers as rcall
+        return rcall.replay(rp)
     if "ops" in rp and ("zoo_seed" in rp or "gen_family" in rp or "scenario" in rp) and "req" in rp and "state" in rp:
         return rcon.replay(rp, registry())   # a contract-search replay
     if "setup_ops" in rp:                    # recorded by the static part's rigs (R-schema / R-guards)
@@ -479,6 +491,7 @@ def run(ctx: Ctx):
     t0 = time.time()
     with lean_lock():
         ctx.extract("RequestCore", x_core.emit)
+        ctx.extract(x_callers.GEN_NAME, x_callers.emit)   # Props/C05Callers: who calls the request layer, what becomes of a refusal
         ctx.prove(MODULES, exes=[EXE], leanchecker=ctx.thorough)
     ctx.cov["rule"] = ("requests = every route of the live tree (sampled in quick), route mutations (delete/misspell/truncate/append/swap), and "
                        "requests formed from every registered action type with parameters naming existing or missing components, at the "
@@ -511,6 +524,22 @@ def run(ctx: Ctx):
         t0 = time.time()
         edits(ctx)
         _stage(ctx, "R-edits", t0)
+    t0 = time.time()
+    # R-callers: a refused agent action is a do-nothing step for the simulation (what the callers do with a non-success response)
+    from harness.rigs import request_callers as rcall
+    try:
+        rcall.refused_step_is_noop(ctx)
+    except Exception as e:
+        ctx.notes.append(f"R-callers not run: {type(e).__name__}: {str(e)[:120]}")
+    _stage(ctx, "R-callers", t0)
+    t0 = time.time()
+    # R-boundary: every numeric / enumerated / name option of every action type at its boundary values, real handlers, nodes ON
+    from harness.rigs import request_boundary as rbound
+    try:
+        rbound.run(ctx, scenarios(ctx), registry())
+    except Exception as e:
+        ctx.notes.append(f"R-boundary not run: {type(e).__name__}: {str(e)[:120]}")
+    _stage(ctx, "R-boundary", t0)
     t0 = time.time()
     # static part: schematic request tree (E4) x action templates (E5): C05_action_templates_resolve & co (Props/C05Schema.lean)
     from harness.props import c05x
